@@ -14,6 +14,7 @@ import (
 
 	"pgregory.net/rapid"
 
+	"github.com/gardenbed/emerge/internal/ebnf/parser/spec"
 	rast "github.com/gardenbed/emerge/internal/regex/parser/ast"
 	"github.com/gardenbed/emerge/internal/regex/parser/nfa"
 	"github.com/gardenbed/emerge/internal/vh/gen"
@@ -24,7 +25,7 @@ import (
 func TestMain(m *testing.M) { rec.Main(m, "C09") }
 
 // ruleMore describes what was added to the exploration in the build phase.
-const ruleMore = "; repetition ranges with minimum above maximum also with counts up to 5000, counts that overflow an integer; also: \\p{Name} for every table name of Go's unicode package and class names of other notations (a sentence iff documented), ranges whose end points are surrogate code points"
+const ruleMore = "; patterns of hundreds and thousands of items, alternatives and nested groups; repetition ranges with minimum above maximum also with counts up to 5000, counts that overflow an integer; also: \\p{Name} for every table name of Go's unicode package and class names of other notations (a sentence iff documented), ranges whose end points are surrogate code points"
 
 const rule = "strings: (a) every string up to a length bound over a reduced alphabet (the 13 metacharacters, ^ - , : and representatives a b 0 1 x p A), " +
 	"(b) canonical prints of generated pattern trees, (c) single-edit mutations of (b), (d) patterns seeded with a descending range or a min>max repetition in every spelling; " +
@@ -64,7 +65,29 @@ func checkText(s string) (accepted bool, err error) {
 	if e1 == nil && !ref.IsPatternSentence(s) {
 		return true, fmt.Errorf("text %q is accepted as a pattern, but the entire text is not a sentence of the documented pattern grammar", s)
 	}
+	// the route a token definition of a specification takes (its own entry into the pattern parser): a text that is
+	// no pattern must not become a token automaton either
+	if e1 != nil || (len(s) <= 12 && fnv32(s)%8 == 0) {
+		var serr error
+		if g := rec.Guard(func() { _, serr = spec.VerifRegexToDFA(s) }); g == nil {
+			rec.Count("texts_also_submitted_as_token_definitions", 1)
+			if serr == nil && e1 != nil {
+				return false, fmt.Errorf("text %q is rejected by nfa.Parse (%v), but the token pipeline of a specification builds an automaton for it without any error", s, e1)
+			}
+			if serr != nil && e1 == nil {
+				return true, fmt.Errorf("text %q is accepted by nfa.Parse, but the token pipeline of a specification rejects it: %v", s, serr)
+			}
+		}
+	}
 	return e1 == nil, nil
+}
+
+func fnv32(s string) uint32 {
+	h := uint32(2166136261)
+	for i := 0; i < len(s); i++ {
+		h = (h ^ uint32(s[i])) * 16777619
+	}
+	return h
 }
 
 func checkCanonical(s string) error {
@@ -343,6 +366,54 @@ func TestMeaninglessRangesRejected(t *testing.T) {
 	})
 }
 
+// Long patterns: the grammar bounds neither the number of items of a pattern nor the nesting of its groups, so no
+// counter, stack or table of the parsers may. Every text is written with documented constructs in unambiguous forms.
+func TestLongPatterns(t *testing.T) {
+	rec.Begin(t)
+	rec.Rule(rule + ruleMore)
+	if rec.Shard() != 0 {
+		t.Skip("seed independent: shard 0 only")
+	}
+	var texts []string
+	for _, n := range []int{100, 249, 250, 251, 255, 256, 257, 300, 511, 512, 1000, 2000} {
+		texts = append(texts, strings.Repeat("a", n)+"(y|z)?", strings.Repeat("ab", n/2)+"(c)", "("+strings.Repeat("x", n)+")+", strings.Repeat("[0-9]", n/4)+`(\.[0-9]+)?`)
+		texts = append(texts, strings.Repeat("a?b*c+", n/6)+"(d|e)")
+	}
+	for _, k := range []int{10, 40, 80, 150} {
+		var alts []string
+		for i := 0; i < k; i++ {
+			alts = append(alts, fmt.Sprintf("kw%d(_x)?", i))
+		}
+		texts = append(texts, strings.Join(alts, "|"), "("+strings.Join(alts, "|")+")+z")
+	}
+	for _, d := range []int{10, 50, 100, 200, 300} {
+		texts = append(texts, strings.Repeat("(", d)+"a"+strings.Repeat(")", d), strings.Repeat("(a|", d)+"b"+strings.Repeat(")", d), strings.Repeat("(", d)+"a"+strings.Repeat(")?", d))
+	}
+	var items []string
+	for i := 0; i < 300; i++ {
+		items = append(items, string(rune('a'+i%26)))
+	}
+	texts = append(texts, strings.Join(items, "|"), "["+strings.Join(items[:26], "")+strings.Repeat("0-9A-Z", 40)+"]+")
+	for _, s := range texts {
+		e1, e2, perr := parseBoth(s)
+		rec.Case(s, true, "long_pattern")
+		switch {
+		case perr != nil:
+			rec.Fail(t, "text", input{Text: s, Mode: "long"}, "pattern of %d characters: %v", len(s), perr)
+		case e1 != nil || e2 != nil:
+			rec.Fail(t, "text", input{Text: s, Mode: "long"}, "a pattern of %d characters written with documented constructs in unambiguous forms is rejected: nfa.Parse error=%v, ast.Parse error=%v\npattern: %s", len(s), e1, e2, head(s))
+		}
+	}
+	rec.Count("long_patterns", len(texts))
+}
+
+func head(s string) string {
+	if len(s) > 160 {
+		return s[:100] + " ... " + s[len(s)-50:]
+	}
+	return s
+}
+
 // Counts that no integer holds: a text with such a count may be rejected (it is grammatical, but nothing can be built
 // for it); it must never be accepted as if it said something else, least of all when its minimum exceeds its maximum.
 func TestOverflowingCounts(t *testing.T) {
@@ -497,6 +568,12 @@ func TestReplay(t *testing.T) {
 	switch in.Mode {
 	case "canonical":
 		err = checkCanonical(in.Text)
+	case "long":
+		if e1, e2, perr := parseBoth(in.Text); perr != nil {
+			err = perr
+		} else if e1 != nil || e2 != nil {
+			err = fmt.Errorf("a pattern of %d characters written with documented constructs is rejected: nfa.Parse error=%v, ast.Parse error=%v", len(in.Text), e1, e2)
+		}
 	case "overflow":
 		if e1, e2, perr := parseBoth(in.Text); perr != nil {
 			err = perr
